@@ -246,7 +246,7 @@ Case genPath() {
   GEN::DegPool pool;
   Path64 p;
   if (kind == 0) p = GEN::degPath(12, M, pool);
-  else if (kind == 1) p = GEN::randomPath(0, 12, M);
+  else if (kind == 1) { p = GEN::randomPath(0, 12, M); if (G::chance(3)) { p = GEN::randomPath(60, 200, M); ST.count("large_path_60_to_200_points"); } }
   else if (kind == 2) {   // all collinear / runs of collinear points
     Point64 a(G::sym(M), G::sym(M));
     int64_t dx = G::sym(5), dy = G::sym(5);
